@@ -69,6 +69,8 @@ fn alphabet(sp: &il::Scalar) -> Alphabet {
         il::Operation::load(sp.clone(), s()),
         il::Operation::store(s(), E::scalar(r())),
         il::Operation::nop(),
+        // a placeholder no-op wrapping a stack adjustment: nothing executes
+        il::Operation::placeholder(il::Operation::assign(sp.clone(), E::sub(s(), c(16)).unwrap())),
     ];
     let guards = vec![(E::cmpeq(E::scalar(r()), c(0)).unwrap(), E::cmpneq(E::scalar(r()), c(0)).unwrap())];
     Alphabet { ops, guards, guards3: vec![] }
